@@ -1,4 +1,4 @@
-import I2N.Lemmas.Trav
+import I2N.Lemmas.TravReady
 import I2N.Model.TravMon
 /-!
 # C01 — Every test starts only with its required object states available
@@ -146,5 +146,137 @@ theorem parent_dropped_only_when_decided (g : Graph) (s : State) (w next prev : 
         · rw [h']; rfl
       show (regWorkers ((popPath s1 w).cr (g.node prev).cls).droppedSetup _).length = _
       simp only [popPath, cr_setWd, hcr]
+
+/-! ## the inverse-DFS invariants over ALL reachable states
+
+`ReachH g ncls store H0 s` (`Lemmas/TravReady.lean`): `s` is reached from the initial state in which exactly the nodes `H0`
+are not parsed yet (`[]`: pre-parsed graph) by any finite sequence of `resume` steps of any workers with any outcomes and
+any fuel.  Hypotheses on the graph, all decidable: `graphWF g` (edges and root are node indices), the root is flat (the
+shared root), `OwnerNames g` (a worker's id occurs in the names of exactly its own parsed copies — decidable form
+`ownerNamesB`; without it a copy could be traversed by a foreign worker, which is the substring-identity trap of the
+code), `FlatClass g` (the copies of a class are all flat or all parsed). -/
+
+/-- The `finished` mark of a parsed copy is only ever written with the worker that owns the copy: `traverse_node` is
+called with nodes of the worker's path only, and the path holds flat nodes and own copies only. -/
+theorem finished_means_traversed_by_owner (g : Graph) (hwf : graphWF g = true) (hroot : (g.node g.root).flat = true)
+    (hO : OwnerNames g) {ncls : Nat} {store : Store} {H0 : List Nat} {s : State} (hr : ReachH g ncls store H0 s)
+    (n v : Nat) (hn : n < g.nodes.length) (hf : (g.node n).flat = false) (h : (s.nd n).finished = some v) :
+    (g.node n).owner = some v :=
+  (hO v n hn hf).mp ((hr.trv (GraphWF.of_bool hwf) hroot hO.uniq).finOwner n v hn hf h)
+
+/-- … and once a worker has traversed its copy, the mark stays (no step of any worker overwrites it). -/
+theorem traversed_mark_stable (g : Graph) (hwf : graphWF g = true) (hroot : (g.node g.root).flat = true)
+    (hO : OwnerNames g) {ncls : Nat} {store : Store} {H0 : List Nat} {s : State} (hr : ReachH g ncls store H0 s)
+    (v : Nat) (out : Outcome) (fuel : Nat) (p w : Nat) (hp : p < g.nodes.length) (hf : (g.node p).flat = false)
+    (h : (s.nd p).finished = some w) : ((resume g s v out fuel).1.nd p).finished = some w :=
+  (hr.trv (GraphWF.of_bool hwf) hroot hO.uniq).stable (GraphWF.of_bool hwf) hroot hO.uniq v out fuel p w hp hf h
+
+/-- A parent is dropped only after this worker traversed it: in every reachable state, if worker `w` is registered in
+`droppedSetup` of the class of `n` for the class of a parsed parent `p`, then `w`'s own copy of `p`'s class carries
+`w`'s `finished` mark (`traverse_node` ran to its end on it for `w`: the run decision said "no (more) running"). -/
+theorem dropped_parent_was_traversed (g : Graph) (hwf : graphWF g = true) (hroot : (g.node g.root).flat = true)
+    (hO : OwnerNames g) (hF : FlatClass g) {ncls : Nat} {store : Store} {H0 : List Nat} {s : State}
+    (hr : ReachH g ncls store H0 s) (n p w : Nat) (hp : p < g.nodes.length) (hfp : (g.node p).flat = false)
+    (h : w ∈ regWorkers (s.cr (g.node n).cls).droppedSetup (some (g.node p).cls)) :
+    ∃ p', p' < g.nodes.length ∧ (g.node p').cls = (g.node p).cls ∧ (g.node p').owner = some w ∧
+      (s.nd p').finished = some w :=
+  ((hr.trv (GraphWF.of_bool hwf) hroot hO.uniq).dropS _ _ w h).owned hO hF hp hfp
+
+/-- Setup-readiness therefore means "traversed": in a state satisfying the invariant (every reachable state, and every
+intermediate state of a step), a node that is setup-ready for `w` on a graph `gv` with the nodes of `g` (the graph as parsed
+so far) has all its relevant parsed parents traversed by `w`. -/
+theorem setup_ready_parents_traversed (g : Graph) (hwf : graphWF g = true) (hO : OwnerNames g) (hF : FlatClass g)
+    {H0 : List Nat} {s : State} (t : Trv g H0 s) (gv : Graph) (hsn : SameNodes gv g)
+    (hsub : ∀ n p, p ∈ (gv.node n).setup → p ∈ (g.node n).setup) (n w : Nat)
+    (h : isSetupReady gv s n w = true) :
+    ∀ p ∈ (gv.node n).setup, relevant g w p.1 = true → (g.node p.1).flat = false →
+      ∃ p', p' < g.nodes.length ∧ (g.node p').cls = (g.node p.1).cls ∧ (g.node p').owner = some w ∧
+        (s.nd p').finished = some w := by
+  intro p hp hrel hfp
+  have h1 := (setup_ready_iff' gv s n w).mp h p hp (by rw [relevant_sameNodes hsn]; exact hrel)
+  rw [hsn.cls, hsn.cls] at h1
+  exact (t.dropS _ _ w h1).owned hO hF ((GraphWF.of_bool hwf).setup_lt n p (hsub n p hp)) hfp
+
+/-- Every start happens after the parents were traversed: whenever a `resume` step of worker `w` emits a `start` event,
+it is the start of (a phase `ph` of) a node `n` that `w` owns, and in the state `sd` of this step in which the test was
+started (`sd` satisfies the invariant `Trv`, and the other workers' records are those of `s`) every relevant parsed parent
+of `n` — on the graph visible with `hid` hidden, where `hid` lies between what is hidden in `sd` and what was hidden
+initially; for the two-step creation of an object root it is the graph visible when the creation was started — has been
+traversed by `w`: `w`'s own copy of its class carries `w`'s `finished` mark. -/
+theorem start_after_parents_traversed (g : Graph) (hwf : graphWF g = true) (hroot : (g.node g.root).flat = true)
+    (hO : OwnerNames g) (hF : FlatClass g) {ncls : Nat} {store : Store} {H0 : List Nat} {s : State}
+    (hr : ReachH g ncls store H0 s) (w : Nat) (out : Outcome) (fuel : Nat)
+    (wid cname uid : String) (locs : List (String × String)) (k : Nat)
+    (he : Event.start wid cname uid locs k ∈ (resume g s w out fuel).2) :
+    wid = (g.worker w).id ∧ ∃ n ph sd hid, cname = clsName g n ph ∧ n < g.nodes.length ∧ (g.node n).owner = some w ∧
+      (g.node n).flat = false ∧ (∀ h ∈ sd.hidden, h ∈ hid) ∧ (∀ h ∈ hid, h ∈ H0) ∧ Trv g H0 sd ∧
+      (∀ v, v ≠ w → sd.wd v = s.wd v) ∧
+      ∀ p ∈ ((visH g hid).node n).setup, relevant g w p.1 = true → (g.node p.1).flat = false →
+        ∃ p', p' < g.nodes.length ∧ (g.node p').cls = (g.node p.1).cls ∧ (g.node p').owner = some w ∧
+          (sd.nd p').finished = some w := by
+  have t := hr.trv (GraphWF.of_bool hwf) hroot hO.uniq
+  obtain ⟨h0, n, ph, sd, h1, h2, hn, hid, hfl, hd, h3, h4, h5⟩ :=
+    ((resume_ok g H0 (GraphWF.of_bool hwf) hroot s w out fuel t).2 _ he).2 wid cname uid locs k rfl
+  have td := t.upd hO.uniq h2
+  exact ⟨h0, n, ph, sd, hd, h1, hn, (hO w n hn hfl).mp hid, hfl, h3, h4, td, h2.others,
+    setup_ready_parents_traversed g hwf hO hF td (visH g hd) (sameNodes_visH g hd) (fun n p => visH_setup_sub g hd n p) n w h5⟩
+
+/-- … on a pre-parsed graph (nothing hidden initially) these are all parents of `n`. -/
+theorem start_after_parents_traversed_eager (g : Graph) (hwf : graphWF g = true) (hroot : (g.node g.root).flat = true)
+    (hO : OwnerNames g) (hF : FlatClass g) {ncls : Nat} {store : Store} {s : State}
+    (hr : ReachH g ncls store [] s) (w : Nat) (out : Outcome) (fuel : Nat)
+    (wid cname uid : String) (locs : List (String × String)) (k : Nat)
+    (he : Event.start wid cname uid locs k ∈ (resume g s w out fuel).2) :
+    wid = (g.worker w).id ∧ ∃ n ph sd, cname = clsName g n ph ∧ n < g.nodes.length ∧ (g.node n).owner = some w ∧
+      Trv g [] sd ∧ (∀ v, v ≠ w → sd.wd v = s.wd v) ∧
+      ∀ p ∈ (g.node n).setup, relevant g w p.1 = true → (g.node p.1).flat = false →
+        ∃ p', p' < g.nodes.length ∧ (g.node p').cls = (g.node p.1).cls ∧ (g.node p').owner = some w ∧
+          (sd.nd p').finished = some w := by
+  obtain ⟨h0, n, ph, sd, hid, h1, hn, ho, _, _, h4, td, h5, h6⟩ :=
+    start_after_parents_traversed g hwf hroot hO hF hr w out fuel wid cname uid locs k he
+  have : hid = [] := by
+    cases hid with
+    | nil => rfl
+    | cons a r => exact absurd (h4 a List.mem_cons_self) (by simp)
+  subst this
+  exact ⟨h0, n, ph, sd, h1, hn, ho, td, h5, h6⟩
+
+/-! ### non-vacuity (the instance `exGraph` of `Lemmas/TravReady.lean`) -/
+
+example : graphWF exGraph = true ∧ (exGraph.node exGraph.root).flat = true ∧ ownerNamesB exGraph = true := by decide
+example : FlatClass exGraph := by decide
+example : ReachH exGraph 3 [] [] exS2 := reachH_runSched exGraph 3 [] [] 100 _ _ ReachH.init
+
+set_option maxRecDepth 100000 in
+/-- after `a` passed, net1 is registered as having dropped the parent class `a` (0) of its node `b` (class 1), its copy of
+`a` carries its mark, and the step that did this emitted the start of `b` -/
+example : 0 ∈ regWorkers (exS2.cr (exGraph.node 2).cls).droppedSetup (some (exGraph.node 0).cls) ∧
+    (exS2.nd 0).finished = some 0 ∧ (exGraph.node 0).owner = some 0 ∧
+    Event.start "net1" "1" "2a1" [("vm1", ":/pool/shared net1:/pool/swarm")] 1 ∈ (resume exGraph exS1 0 exPass 100).2 := by
+  decide +kernel
+
+/-! lazy expansion: initially the four parsed nodes are hidden (`H0 = [0, 1, 2, 3]`); net1 reveals its copies (2 and its
+ancestor 0) at the flat node, runs `a`, drops it and starts `b` -/
+
+example : graphWF exLazy = true ∧ (exLazy.node exLazy.root).flat = true ∧ ownerNamesB exLazy = true := by decide
+example : FlatClass exLazy := by decide
+example : ReachH exLazy 4 [] [0, 1, 2, 3] exL2 := reachH_runSched exLazy 4 [] _ 100 _ _ ReachH.init
+
+set_option maxRecDepth 100000 in
+example : exL2.hidden = [1, 3] ∧
+    0 ∈ regWorkers (exL2.cr (exLazy.node 2).cls).droppedSetup (some (exLazy.node 0).cls) ∧
+    (exL2.nd 0).finished = some 0 ∧
+    Event.start "net1" "1" "2a1" [("vm1", ":/pool/shared net1:/pool/swarm")] 1 ∈ (resume exLazy exL1 0 exPass 100).2 := by
+  decide +kernel
+
+set_option maxRecDepth 100000 in
+/-- `OwnerNames` is needed: when a worker's id is a substring of the name of a foreign copy (`net1` in `…net11`), the
+worker traverses the foreign copy and leaves its own mark on it — `finished_means_traversed_by_owner` fails. -/
+theorem owner_names_needed :
+    ownerNamesB exBad = false ∧ graphWF exBad = true ∧ (exBad.node exBad.root).flat = true ∧
+    ReachH exBad 2 [] [] (runSched exBad 100 (initState exBad 2 [] []) [(0, exNoOut), (0, exPass)]) ∧
+    ((runSched exBad 100 (initState exBad 2 [] []) [(0, exNoOut), (0, exPass)]).nd 0).finished = some 0 ∧
+    (exBad.node 0).owner = some 1 :=
+  ⟨by decide, by decide, by decide, reachH_runSched exBad 2 [] [] 100 _ _ ReachH.init, by decide +kernel, by decide⟩
 
 end I2N.Props.C01
